@@ -19,6 +19,10 @@ Qed.
 Lemma ma_nz : c_ma c <> 0.
 Proof. pose proof ma_pos. lia. Qed.
 
+(* the growth path of arena_realloc_fast validates the scope (last conjunct of wf_cfg) *)
+Lemma gv_true : c_gv c = true.
+Proof. destruct Hwf as (_ & _ & _ & _ & _ & _ & _ & _ & H). exact H. Qed.
+
 Lemma round_up_div x : round_up c x = (x + (c_ma c - 1)) / c_ma c * c_ma c.
 Proof.
   unfold round_up. destruct Hwf as [[k Hk] _]. rewrite Hk.
